@@ -299,6 +299,7 @@ def check_pair(sh, mods, f1, f2, case, shape=(4, 4)):
     n1 = n2 = 3
     r1, c1, l1 = f1
     r2, c2, l2 = f2
+    keep = [a_.copy() for a_ in (r1, c1, l1, r2, c2, l2)]
     # linear
     try:
         ne, rcl = lin(r1, c1, l1, n1, r2, c2, l2, n2)
@@ -335,6 +336,11 @@ def check_pair(sh, mods, f1, f2, case, shape=(4, 4)):
     except Exception as e:
         sh.violation("overlaps:raises" + (":disjoint-frames" if not want else ""), case,
                      {"error": "%s: %s" % (type(e).__name__, e), "shared_pixels": sum(want.values())})
+    # counting overlaps is a read-only question: the frames (coordinates and label arrays) are what they were
+    if not all(np.array_equal(a_, b_) for a_, b_ in zip((r1, c1, l1, r2, c2, l2), keep)):
+        sh.violation("overlaps:modifies-the-coordinates-or-labels-of-the-frames-it-is-given", case, {})
+        for a_, b_ in zip((r1, c1, l1, r2, c2, l2), keep):
+            a_[...] = b_
     # raw sparse_overlaps indices
     k1 = np.full(len(r1), -5, np.int32); k2 = np.full(len(r2), -5, np.int32)
     npx = cI.sparse_overlaps(r1, c1, k1, r2, c2, k2)
